@@ -224,8 +224,53 @@ def canon_tests(r):
                 return p[1][0]
             if p is not None and p[0] == "ge0":
                 return F.fn("ge0", -p[1][0] - 1)
+        if name == "phi" and len(args) == 3 and not any(isinstance(a, str) for a in args):
+            return _canon_phi(*args)
         return None
-    return rewrite(r, post=post)
+    out = rewrite(r, post=post)
+    return rewrite(out, post=_canon_empty)
+
+
+def _canon_empty(name, args):
+    """emptiness tests in one form: len(x) == 0, x == "", x == b"" are `not x`; len(x) > 0 is the truth of x, written x"""
+    if name == "eq0" and len(args) == 1 and not isinstance(args[0], str):
+        d = args[0]
+        p = fn_parts(d) or fn_parts(-d)
+        if p is not None and p[0] == "call:len" and len(p[1]) == 1 and not isinstance(p[1][0], str):
+            return F.fn("not", p[1][0])
+        terms = list(d.n.t.items()) if d.d.is_const() else []
+        if len(terms) == 2 and terms[0][1] == -terms[1][1] and all(len(m) == 1 and m[0][1] == 1 for m, _c in terms):
+            descs = [F.atom_desc(m[0][0]) for m, _c in terms]
+            for i in (0, 1):
+                if descs[i] in (("s", "''"), ("s", "b''")):
+                    return F.fn("not", F.Rat(F.Poly.atom(terms[1 - i][0][0][0])))
+    if name == "ge0" and len(args) == 1 and not isinstance(args[0], str):
+        p = fn_parts(args[0] + 1)
+        if p is not None and p[0] == "call:len" and len(p[1]) == 1 and not isinstance(p[1][0], str):
+            return p[1][0]
+    if name == "not" and len(args) == 1 and not isinstance(args[0], str):
+        p = fn_parts(args[0])
+        if p is not None and p[0] == "not":
+            return p[1][0]
+    return None
+
+
+def _canon_phi(c, a, b):
+    """selections in one form: the condition of a selection is not negated; -x if x < 0 else x is abs(x)"""
+    if is_unknown(a) or is_unknown(b) or is_unknown(c):
+        return None
+    pc = fn_parts(c)
+    if pc is not None and pc[0] == "not" and not isinstance(pc[1][0], str):
+        return F.fn("phi", pc[1][0], b, a)
+    if pc is not None and pc[0] == "ge0":
+        x = pc[1][0]
+        # ge0(-v - 1): v < 0          ge0(v): v >= 0        ge0(v - 1): v > 0
+        for v, neg in ((-(x + 1), True), (x, False), (x - 1, False)):
+            if neg and a.equals(-v) and b.equals(v):
+                return F.fn("abs", v)
+            if not neg and a.equals(v) and b.equals(-v):
+                return F.fn("abs", v)
+    return None
 
 
 def expand_words(r):
@@ -267,15 +312,41 @@ def norm(r, whole_values=True):
     return out
 
 
+_SAME = {}
+
+
 def same(a, b, whole_values=True):
+    """equality of two values as functions of the bytes read: equal normal forms, or equal normal forms under every resolution of the
+    selections (phi) and parities (odd) they contain - so that `2 - (m & 1)` and `1 if m & 1 else 2`, a selection made before or after an
+    arithmetic step, or two differently nested selections are the same value"""
     if a is None or b is None or is_unknown(a) or is_unknown(b):
         return False
     if isinstance(a, tuple) or isinstance(b, tuple):
         return isinstance(a, tuple) and isinstance(b, tuple) and len(a) == len(b) and all(same(x, y, whole_values) for x, y in zip(a, b))
     try:
-        return need(norm(a, whole_values)).equals(need(norm(b, whole_values)))
+        na, nb = need(norm(a, whole_values)), need(norm(b, whole_values))
+        if na.equals(nb):
+            return True
+        if not (_has_split(na) or _has_split(nb)):
+            return False
+        k = (na.n.key(), na.d.key(), nb.n.key(), nb.d.key(), whole_values)
+        r = _SAME.get(k)
+        if r is None:
+            if len(_SAME) > 20000:
+                _SAME.clear()
+            r = True
+            for _path, (x, y) in leaves([a, b], limit=6):
+                if not need(norm(settle(x), whole_values)).equals(need(norm(settle(y), whole_values))):
+                    r = False
+                    break
+            _SAME[k] = r
+        return r
     except Unsupported:
         return False
+
+
+def _has_split(v):
+    return any(d[0] == "fn" and d[1] in ("phi", "odd") for d in walk_atoms(v))
 
 
 def phi(c, a, b):
@@ -301,18 +372,26 @@ def phi(c, a, b):
     return F.fn("phi", c, a, b)
 
 
-def leaves(values):
-    """every consistent resolution of the phi(...) selections inside a list of formulas -> [(assignments, [resolved values])]"""
-    def first_phi(v):
+def leaves(values, limit=12):
+    """every consistent resolution of the selections phi(c, a, b) and parities odd(x) inside a list of formulas
+    -> [(assignments [(condition, taken)], [resolved values])]"""
+    def first_split(v):
         for d in walk_atoms(v):
             if d[0] == "fn" and d[1] == "phi":
                 return _arg(d[2][0])
+        for d in walk_atoms(v):
+            if d[0] == "fn" and d[1] == "odd":
+                return F.Rat(F.Poly.atom(F._intern(d)))
         return None
 
     def choose(v, c, take):
+        ca = as_atom(c)
+
         def pre(d):
             if d[0] == "fn" and d[1] == "phi" and _arg(d[2][0]).equals(c):
                 return choose(_arg(d[2][1 if take else 2]), c, take)
+            if ca is not None and d == ca and d[0] == "fn" and d[1] == "odd":
+                return F.const(1 if take else 0)
             return None
         return rewrite(v, pre=pre)
 
@@ -323,16 +402,27 @@ def leaves(values):
         for v in vals:
             if v is None or is_unknown(v):
                 continue
-            c = first_phi(v)
+            c = first_split(v)
             if c is not None:
                 break
         if c is None:
             out.append((path, vals))
             return
-        if len(path) > 12:
+        if len(path) > limit:
             raise Unsupported("too many nested selections")
         for take in (True, False):
-            rec([v if v is None or is_unknown(v) else choose(v, c, take) for v in vals], path + [(c, take)])
+            # a resolution that contradicts an earlier one (the condition of the earlier one is now decided the other way) is dropped
+            new_path, ok = [], True
+            for pc, pt in path:
+                pc2 = settle(choose(pc, c, take))
+                t = truth_of(pc2)
+                if t is not None and t != pt:
+                    ok = False
+                    break
+                new_path.append((pc, pt))
+            if not ok:
+                continue
+            rec([v if v is None or is_unknown(v) else choose(v, c, take) for v in vals], new_path + [(c, take)])
 
     rec(list(values), [])
     return out
@@ -340,15 +430,19 @@ def leaves(values):
 
 # ------------------------------------------------------------------------------------------------------------------ items
 class Loop:
-    __slots__ = ("kind", "test", "items", "carry", "frame", "node", "exits", "entry", "guard", "ph")
+    __slots__ = ("kind", "test", "items", "carry", "frame", "node", "exits", "entry", "guard", "ph", "forced", "fr")
 
-    def __init__(self, kind, test, items, carry, frame, node, entry, guard=(), ph=None):
+    def __init__(self, kind, test, items, carry, frame, node, entry, guard=(), ph=None, forced=False, fr=None):
         self.kind, self.test, self.items, self.carry, self.frame, self.node, self.entry = kind, test, items, carry, frame, node, entry
         self.guard = guard            # path condition under which the loop is reached
         self.ph = ph or {}            # local name -> placeholder
+        self.forced = forced          # the first iteration is unconditional (a loop tested at its end)
+        self.fr = fr                  # the _Frame the body was walked in (identity of the loop for events recorded in it)
 
     def entry_test(self):
         """the loop condition on first entry (placeholders replaced by the values the locals enter the loop with)"""
+        if self.forced:
+            return ONE
         mapping = [(p, self.entry.get(nm)) for nm, p in self.ph.items()
                    if not is_unknown(p) and self.entry.get(nm) is not None and not is_unknown(self.entry.get(nm)) and not isinstance(self.entry.get(nm), tuple)]
         return renamer(mapping)(self.test)
@@ -410,8 +504,8 @@ def _loop_refs(lp):
     return [(names[k], upd[k]) for k in sorted(want)]
 
 
-def same_items(a, b, whole_values=True, why=None):
-    """equality of two consumption trees; `why` (a list) receives the first difference"""
+def same_items(a, b, whole_values=True, why=None, _depth=0):
+    """equality of two consumption trees (up to the numbering of their loops); `why` (a list) receives the first difference"""
     a, b = tidy(a), tidy(b)
 
     def no(msg):
@@ -421,7 +515,8 @@ def same_items(a, b, whole_values=True, why=None):
 
     if len(a) != len(b):
         return no(f"{show(a)}  vs  {show(b)}")
-    for x, y in zip(a, b):
+    for i in range(len(a)):
+        x, y = a[i], b[i]
         if x[0] != y[0]:
             return no(f"{show([x])}  vs  {show([y])}")
         if x[0] in ("B", "L", "abs"):
@@ -433,10 +528,16 @@ def same_items(a, b, whole_values=True, why=None):
         elif x[0] == "if":
             if not same(x[1], y[1], whole_values):
                 return no(f"branch on {x[1]!r}  vs  {y[1]!r}")
-            if not same_items(x[2], y[2], whole_values, why) or not same_items(x[3], y[3], whole_values, why):
+            if not same_items(x[2], y[2], whole_values, why, _depth + 1) or not same_items(x[3], y[3], whole_values, why, _depth + 1):
                 return False
         elif x[0] == "loop":
-            if not same_loops(x[1], y[1], whole_values, why):
+            # the two loops, and whatever refers to them afterwards, under one name
+            z = F.sym(f"<loop {_depth}.{i}>")
+            if not x[1].frame.equals(z):
+                a = a[:i] + map_items(a[i:], renamer([(x[1].frame, z)]))
+            if not y[1].frame.equals(z):
+                b = b[:i] + map_items(b[i:], renamer([(y[1].frame, z)]))
+            if not same_loops(a[i][1], b[i][1], whole_values, why, _depth + 1):
                 return False
     return True
 
@@ -448,6 +549,8 @@ def truth_of(v):
     v = norm(v, whole_values=False)
     if v.is_const():
         return v.const_value() != 0
+    if sym_name(v) in ("True", "False", "None"):
+        return sym_name(v) == "True"
     p = fn_parts(v)
     if p is None:
         return None
@@ -507,17 +610,18 @@ def _canon_carried(lp):
                     used.extend(walk_atoms(v))
     scan_items(lp.items)
     mapping = []
+    prev = renamer([(lp.frame, F.fn("prev", lp.frame))])      # what was read in the previous iteration
     for p, v in lp.carry:
         if v is None or is_unknown(v) or isinstance(v, tuple):
             continue
         own = any(d[0] == "fn" and d[1] == "lv" and _arg(d[2][0]).equals(lp.frame) for d in walk_atoms(v))
         if own or as_atom(p) in used:
             continue
-        mapping.append((p, F.fn("lvu", lp.frame, v)))
+        mapping.append((p, prev(v)))
     return map_loop(lp, renamer(mapping)) if mapping else lp
 
 
-def same_loops(l1, l2, whole_values=True, why=None):
+def same_loops(l1, l2, whole_values=True, why=None, _depth=0):
     def no(msg):
         if why is not None and not why:
             why.append(msg)
@@ -531,7 +635,7 @@ def same_loops(l1, l2, whole_values=True, why=None):
     l1, l2 = _canon_carried(l1), _canon_carried(l2)
     if not same(l1.test, l2.test, whole_values):
         return no(f"loop condition {norm(l1.test)!r}  vs  {norm(l2.test)!r}")
-    if not same_items(l1.items, l2.items, whole_values, why):
+    if not same_items(l1.items, l2.items, whole_values, why, _depth):
         return False
     c1, c2 = _loop_refs(l1), _loop_refs(l2)
     if len(c1) != len(c2):
@@ -577,7 +681,7 @@ def map_loop(lp, f):
     fm = lambda v: v if v is None or is_unknown(v) else f(v)   # noqa
     new = Loop(lp.kind, f(lp.test), map_items(lp.items, f), [(f(p), fm(v)) for p, v in lp.carry],
                f(lp.frame), lp.node, {k: fm(v) for k, v in lp.entry.items()}, tuple((fm(c), pol) for c, pol in lp.guard),
-               {k: fm(v) for k, v in lp.ph.items()})
+               {k: fm(v) for k, v in lp.ph.items()}, lp.forced, lp.fr)
     new.exits = lp.exits
     return new
 
@@ -667,6 +771,83 @@ def _is_str(v):
     return p is not None and p[0] in ("cat", "fmt")
 
 
+KNOWN_CONSTS = {"os.SEEK_SET": 0, "os.SEEK_CUR": 1, "os.SEEK_END": 2, "io.SEEK_SET": 0, "io.SEEK_CUR": 1, "io.SEEK_END": 2}
+NONE = F.sym("None")
+
+
+def module_table(ctx, rel):
+    """{name: value node} of the module-level names of `rel` that are bound exactly once, at top level (constants, slices, tables a clean-up
+    moved out of a function); evaluated on use like an inlined temporary"""
+    cache = ctx.__dict__.setdefault("_c11_modtab", {})
+    if rel in cache:
+        return cache[rel]
+    m = ctx.src.mod(rel)
+    count, val = {}, {}
+    for st in ast.walk(m.tree):
+        tg = []
+        if isinstance(st, ast.Assign):
+            tg = st.targets
+        elif isinstance(st, (ast.AnnAssign, ast.AugAssign)):
+            tg = [st.target]
+        elif isinstance(st, (ast.Global, ast.Nonlocal)):
+            for nm in st.names:
+                count[nm] = count.get(nm, 0) + 2
+        if st in m.tree.body:
+            for t in tg:
+                for x in ast.walk(t):
+                    if isinstance(x, ast.Name):
+                        count[x.id] = count.get(x.id, 0) + 1
+            if isinstance(st, (ast.Assign, ast.AnnAssign)) and len(tg) == 1 and isinstance(tg[0], ast.Name) and st.value is not None:
+                val[tg[0].id] = st.value
+    for st in m.tree.body:
+        if isinstance(st, (ast.FunctionDef, ast.AsyncFunctionDef, ast.ClassDef)):
+            count[st.name] = count.get(st.name, 0) + 2
+    cache[rel] = {k: v for k, v in val.items() if count.get(k) == 1}
+    return cache[rel]
+
+
+def _slice_parts(v):
+    """(lower, upper, step) of a slice value, each a formula or None (absent)"""
+    p = fn_parts(v) if v is not None and not is_unknown(v) and not isinstance(v, tuple) else None
+    if p is None or p[0] != "slice" or len(p[1]) != 3 or any(isinstance(x, str) for x in p[1]):
+        return None
+    return tuple(None if x.equals(NONE) else x for x in p[1])
+
+
+def make_slice(lo, up, step=None):
+    return F.fn("slice", *[NONE if x is None else x for x in (lo, up, step)])
+
+
+def sub_read(base, index):
+    """a slice of the bytes of one read is the read of those bytes: rd(F, off, n)[a:b] = rd(F, off + a, b - a)"""
+    q = fn_parts(base)
+    sl = _slice_parts(index)
+    if q is None or q[0] != "rd" or sl is None or sl[2] is not None:
+        return None
+    fr, off, n = q[1]
+    lo, up = sl[0], sl[1]
+
+    def pos(x, default):
+        if x is None:
+            return default
+        if x.is_const() and x.const_value() < 0:
+            return n + x
+        return x
+    lo, up = pos(lo, ZERO), pos(up, n)
+    return F.fn("rd", fr, off + lo, up - lo)
+
+
+def push_phi(name, v, f):
+    """f applied below the selections of v: attr(phi(c, a, b)) = phi(c, attr(a), attr(b))"""
+    p = fn_parts(v)
+    if p is not None and p[0] == "phi" and len(p[1]) == 3:
+        a, b = push_phi(name, p[1][1], f), push_phi(name, p[1][2], f)
+        if a is None or b is None:
+            return None
+        return phi(p[1][0], a, b)
+    return f(v)
+
+
 class CEval(AutoEvaluator):
     """AutoEvaluator whose calls are handled by the walker (each argument is evaluated exactly once: reads have effects)"""
 
@@ -683,8 +864,71 @@ class CEval(AutoEvaluator):
             self.walker.init_guards[id(st)] = self.walker.guard
         return super()._assign(target, v, st, aug)
 
+    def _concrete_comp(self, node):
+        """a comprehension over a literal sequence (a tuple of values) is evaluated element by element"""
+        if len(node.generators) != 1 or node.generators[0].is_async:
+            return None
+        g = node.generators[0]
+        if not isinstance(g.iter, (ast.Name, ast.Call, ast.Subscript, ast.Tuple, ast.List)):
+            return None
+        if any(isinstance(x, ast.Call) and isinstance(x.func, ast.Attribute) and x.func.attr in _FILE_METHODS | {"islice", "fromfile"} for x in ast.walk(g.iter)):
+            return None
+        itv = self._ev(g.iter)
+        if not isinstance(itv, tuple):
+            return None
+        names = [x.id for x in ast.walk(g.target) if isinstance(x, ast.Name)]
+        saved = {k: self.env.get(k) for k in names}
+        out = []
+        try:
+            for x in itv:
+                self.walker.assign(g.target, x, node)
+                keep = True
+                for c in g.ifs:
+                    t = truth_of(self._ev(c))
+                    if t is None:
+                        return None
+                    keep = keep and t
+                if keep:
+                    out.append(self._ev(node.elt))
+            return tuple(out)
+        finally:
+            for k, v in saved.items():
+                if v is None:
+                    self.env.pop(k, None)
+                else:
+                    self.env[k] = v
+
     def _ev(self, node):
+        if isinstance(node, (ast.Tuple, ast.List)) and any(isinstance(e, ast.Starred) for e in node.elts):
+            out = []
+            for e in node.elts:
+                if isinstance(e, ast.Starred):
+                    v = self.ev(e.value)
+                    if not isinstance(v, tuple):
+                        return Unknown("starred element that is not a literal sequence")
+                    out.extend(v)
+                else:
+                    out.append(self.ev(e))
+            return tuple(out)
+        if isinstance(node, ast.Attribute):
+            d = dotted(node)
+            if d in KNOWN_CONSTS and d.split(".")[0] not in self.env:
+                return F.const(KNOWN_CONSTS[d])
+            if node.attr in ("start", "stop", "step") and isinstance(node.ctx, ast.Load):
+                base = self._ev(node.value)
+                if base is not None and not is_unknown(base) and not isinstance(base, tuple):
+                    k = ("start", "stop", "step").index(node.attr)
+
+                    def part(x):
+                        sp = _slice_parts(x)
+                        return None if sp is None else (NONE if sp[k] is None else sp[k])
+                    r = push_phi(node.attr, base, part)
+                    if r is not None:
+                        return r
         if isinstance(node, (ast.ListComp, ast.GeneratorExp, ast.SetComp)):
+            r = self._concrete_comp(node)
+            if r is not None:
+                return r
             parts = []
             saved = {}
             try:
@@ -774,6 +1018,10 @@ class CEval(AutoEvaluator):
             v = super()._ev(node)
             if not is_unknown(v) and not isinstance(v, tuple):
                 p = fn_parts(v)
+                if p is not None and p[0] == "idx" and not isinstance(p[1][0], str) and not isinstance(p[1][1], str):
+                    r = sub_read(p[1][0], p[1][1])
+                    if r is not None:
+                        return r
                 if p is not None and p[0] == "idx" and not isinstance(p[1][0], str) and not isinstance(p[1][1], str) and p[1][1].is_const():
                     q = fn_parts(p[1][0])
                     if q is not None and q[0] == "dec":
@@ -792,9 +1040,10 @@ class CEval(AutoEvaluator):
 
 class Walker:
     def __init__(self, ctx, rel, cls, fn, env=None, cond=None, no_inline=(), extra_inline=(), files=(FILE,), small=None, follow=None,
-                 indirect=None, pinned=None):
+                 indirect=None, pinned=None, force=None, top_name="T"):
         self.ctx, self.rel, self.cls, self.fn = ctx, rel, cls, fn
         self.cond = cond
+        self.force = force                   # value -> True / False / None: a rule decides tests it enumerates (one walk per case)
         self.pinned = dict(pinned or {})
         self.files = list(files)
         self.no_inline = set(no_inline)
@@ -803,7 +1052,7 @@ class Walker:
         self.follow = True if follow is None else follow
         self.small = {} if small is None else small
         self._int = M.int_binop(self.small)
-        self.top = _Frame(F.sym("T"))
+        self.top = _Frame(F.sym(top_name))      # (a second name keeps two walks apart when values of one are substituted into the other)
         self.frames = [self.top]
         self.events = []          # (kind, payload..., node) in evaluation order: read / fromfile / unpack / call / return / line
         self.cutovers = []        # (if node, dtype value, bytes-per-value assumed, count, struct-arm events, fromfile-arm events)
@@ -817,6 +1066,7 @@ class Walker:
         self.bound = {}           # id(followed FunctionDef) -> {parameter: value} of its (last) call
         self.spans = {}           # id(followed FunctionDef) -> (frame id, loops of that frame before the call, after the call)
         self._cells = []          # subscript stores of followed callees
+        self.for_trips = []       # (frame of a `for`, its trip count) for the loops over range(n) / repeat(x, n)
         self.all_inits = []       # (buffer name, creating value, statement)
         self.init_guards = {}     # id(statement) -> guard under which a buffer was (re)bound
         cache = ctx.__dict__.setdefault("_c11_tables_fx", {})
@@ -834,7 +1084,9 @@ class Walker:
 
     # ------------------------------------------------------------------ plumbing
     def _new_ev(self, fn, env):
-        return CEval(fn, self, src=self.ctx.src, cond=self.cond, binop=self._binop, env=env, pinned=self.pinned)
+        ev = CEval(fn, self, src=self.ctx.src, cond=self.cond, binop=self._binop, env=env, pinned=self.pinned)
+        ev.module_consts = module_table(self.ctx, self.rel)
+        return ev
 
     @property
     def frame(self):
@@ -861,6 +1113,12 @@ class Walker:
             return NotImplemented
         if isinstance(op, ast.FloorDiv):
             try:
+                a, b = need(a), need(b)
+                if b.is_const() and b.const_value() == 65536:
+                    # x // 65536 is x >> 16
+                    r = self._int(ast.BinOp(left=node.left, op=ast.RShift(), right=node.right), self._split_words(a), F.const(16), ev)
+                    if not is_unknown(r):
+                        return r
                 return floordiv(a, b)
             except Unsupported as e:
                 return Unknown(str(e))
@@ -872,7 +1130,15 @@ class Walker:
                 return a / b
             return F.fn("truediv", a, b)
         if isinstance(op, ast.Mod):
-            return F.fn("fmt" if _is_str(a) else "mod", need(a), need(b))
+            a, b = need(a), need(b)
+            if not _is_str(a) and b.is_const() and b.const_value() == 2:
+                return F.fn("odd", a)
+            if not _is_str(a) and b.is_const() and b.const_value() == 65536:
+                # x % 65536 is x & 0xFFFF
+                r = self._int(ast.BinOp(left=node.left, op=ast.BitAnd(), right=node.right), self._split_words(a), F.const(0xFFFF), ev)
+                if not is_unknown(r):
+                    return r
+            return F.fn("fmt" if _is_str(a) else "mod", a, b)
         if isinstance(op, ast.Add) and (_is_str(a) or _is_str(b)):
             return F.fn("cat", need(a), need(b))
         if isinstance(op, (ast.RShift, ast.BitAnd)):
@@ -931,12 +1197,12 @@ class Walker:
         return None
 
     def sub_items(self, stmts):
-        """run a statement list collecting its items separately: -> (items, exit status, offsets at its end)"""
+        """run a statement list (or a callable) collecting its items separately: -> (items, result, offsets at its end)"""
         fr = self.frame
         keep_items, keep_off, keep_nopq = fr.items, dict(fr.off), fr.nopq
         fr.items = []
         try:
-            status = self.run(stmts)
+            status = stmts() if callable(stmts) else self.run(stmts)
             return fr.items, status, dict(fr.off)
         finally:
             fr.items, fr.off, fr.nopq = keep_items, keep_off, max(keep_nopq, fr.nopq)
@@ -963,8 +1229,12 @@ class Walker:
         if isinstance(st, ast.If):
             return self._if(st)
         if isinstance(st, ast.While):
-            return self._while(st)
+            return self._while_norm(st)
         if isinstance(st, ast.For):
+            new = self._for_as_while(st)
+            if new is not None:
+                r = self.run(new[0])
+                return r if r is not None else self._while_norm(new[1], orig=st)
             return self._for(st)
         if isinstance(st, ast.With):
             for it in st.items:
@@ -1023,6 +1293,15 @@ class Walker:
         ev._assign(target, v, st)
 
     # ---- if
+    def decide_value(self, cv):
+        """truth of a test value: decided by constants, or by the rule's case oracle"""
+        if cv is None or is_unknown(cv) or isinstance(cv, tuple):
+            return None
+        t = truth_of(cv)
+        if t is None and self.force is not None:
+            t = self.force(cv)
+        return t
+
     def _if(self, st):
         ev = self.ev
         c = ev.decide(st.test)
@@ -1032,29 +1311,35 @@ class Walker:
             return self.run(st.orelse)
         cv = ev.ev(st.test)
         if isinstance(cv, tuple):
-            cv = Unknown("test on a tuple")
-        t = truth_of(cv)
+            cv = F.const(1 if cv else 0)        # a literal sequence is true unless it is empty
+        status, _v = self._branch(cv, lambda: (self.run(st.body), None), lambda: (self.run(st.orelse), None), st)
+        return status
+
+    def _branch(self, cv, run_a, run_b, st):
+        """two-way fork on the value cv; run_x() -> (exit status, value).  Returns (exit status, value)"""
+        ev = self.ev
+        t = self.decide_value(cv)
         if t is not None:
-            return self.run(st.body if t else st.orelse)
+            return run_a() if t else run_b()
         env0 = dict(ev.env)
         e0 = len(self.events)
         g0 = self.guard
+        fr = self.frame
         self.guard = g0 + ((cv, True),)
-        itA, stA, offA = self.sub_items(st.body)
-        envA = ev.env
+        itA, (stA, vA), offA = self.sub_items(run_a)
+        envA = self.ev.env
         e1 = len(self.events)
-        ev.env = dict(env0)
+        self.ev.env = dict(env0)
         self.guard = g0 + ((cv, False),)
-        itB, stB, offB = self.sub_items(st.orelse)
-        envB = ev.env
+        itB, (stB, vB), offB = self.sub_items(run_b)
+        envB = self.ev.env
         e2 = len(self.events)
         self.guard = g0
-        fr = self.frame
         # ---- consumption
         tA, tB = tidy(itA), tidy(itB)
         merged = None
-        if same_items(tA, tB):
-            merged = itA
+        if not loops_in(tA) and not loops_in(tB) and same_items(tA, tB):
+            merged = itA                       # (arms that loop stay apart: the rules look at every loop)
         else:
             merged = self._cutover(st, cv, tA, tB, self.events[e0:e1], self.events[e1:e2])
         if merged is not None:
@@ -1066,7 +1351,7 @@ class Walker:
                     fr.opaque()
         else:
             if is_unknown(cv):
-                raise Stuck(f"branches that consume differently under a test that cannot be lowered ({cv.why}) at line {st.lineno}")
+                raise Stuck(f"branches that consume differently under a test that cannot be lowered ({cv.why}) at line {getattr(st, 'lineno', '?')}")
             fr.items.append(("if", need(cv), itA, itB))
             if stA is None and stB is None:
                 fr.opaque()
@@ -1075,26 +1360,27 @@ class Walker:
             elif stB is None:
                 self._advance(fr, tB)
         # ---- state
+        ev = self.ev
         if stA is not None and stB is not None:
             ev.env = envA
-            return stA if stA == stB else "mixed"
+            return (stA if stA == stB else "mixed"), None
         if stA is not None:
             ev.env = envB
             self.guard = g0 + ((cv, False),)
-            return None
+            return None, vB
         if stB is not None:
             ev.env = envA
             self.guard = g0 + ((cv, True),)
-            return None
+            return None, vA
         out = {}
         for k in set(envA) | set(envB):
-            a, b = envA.get(k), envB.get(k)
-            if a is b:
-                out[k] = a
+            x, y = envA.get(k), envB.get(k)
+            if x is y:
+                out[k] = x
             else:
-                out[k] = phi(cv, a, b)
+                out[k] = phi(cv, x, y)
         ev.env = out
-        return None
+        return None, (None if vA is None and vB is None else phi(cv, vA, vB))
 
     def _advance(self, fr, titems):
         for it in titems:
@@ -1124,7 +1410,7 @@ class Walker:
         ff = [e for e in fE if e[0] == "fromfile"][0]
         un = [e for e in sE if e[0] == "unpack"][0]
         rd = [e for e in sE if e[0] == "read"][0]
-        self.cutovers.append({"node": st, "test": cv, "frame": self.frame.id, "dtype": ff[1], "count_ff": ff[2], "nbytes": rd[2], "fmt": un[1], "data": un[2],
+        self.cutovers.append({"node": st, "test": cv, "frame": self.frame.id, "fr": self.frame, "dtype": ff[1], "count_ff": ff[2], "nbytes": rd[2], "fmt": un[1], "data": un[2],
                               "read": rd[1], "unpack_node": un[3], "fromfile_node": ff[3], "struct_first": kA == "un", "depth": self.depth,
                               "function": self.stack[-1].name})
         return [("B", rd[2])]
@@ -1172,12 +1458,143 @@ class Walker:
             ph[nm] = F.fn("lv", frame_id, e) if seen[k] == 1 else F.fn("lv", frame_id, e, F.const(seen[k]))
         return ph
 
-    def _while(self, st):
+    # a loop written `while True:` with one way out is the loop its exit test makes it:
+    #   while True: if c: break; B            ==  while not c: B
+    #   while True: A; if c: break; <silent>  ==  do A ... while not c      (tested at the end: the first iteration is unconditional)
+    #   while True: A; if c: break; B         ==  A; while not c: B; A      (rotated: the test is the loop's test, A its preparation)
+    def _silent(self, stmts):
+        """statements that neither consume from the file nor leave the loop"""
+        safe = {"len", "int", "float", "str", "abs", "min", "max", "range", "print", "bool", "list", "tuple", "dict", "set", "sorted", "repr",
+                "isinstance", "divmod", "round", "sum", "any", "all", "zip", "enumerate", "slice", "bytes", "chr", "ord"}
+        for st in stmts:
+            for n in ast.walk(st):
+                if isinstance(n, (ast.Break, ast.Continue, ast.Return, ast.Raise, ast.While, ast.For, ast.With, ast.Try, ast.Yield, ast.YieldFrom, ast.Await)):
+                    return False
+                if isinstance(n, ast.Call):
+                    d = dotted(n.func)
+                    if isinstance(n.func, ast.Attribute):
+                        if n.func.attr in _FILE_METHODS or n.func.attr in ("fromfile", "islice", "unpack", "tell"):
+                            return False
+                        if d in self.table and (self.table[d] in self.effects or d in self.no_inline):
+                            return False
+                    elif isinstance(n.func, ast.Name):
+                        if n.func.id in self.table:
+                            if self.table[n.func.id] in self.effects:
+                                return False
+                        elif n.func.id not in safe:
+                            return False
+                    else:
+                        return False
+        return True
+
+    def _plan_while(self, st):
+        if st.orelse or not (isinstance(st.test, ast.Constant) and bool(st.test.value) is True):
+            return None
+        exits = _loop_exits(st.body)
+        if len(exits) != 1:
+            return None
+        for i, x in enumerate(st.body):
+            if not isinstance(x, ast.If):
+                continue
+            arms = [(x.body, x.orelse, False), (x.orelse, x.body, True)]
+            for arm, other, negated in arms:
+                if not arm or arm[-1] is not exits[0]:
+                    continue
+                if any(isinstance(n, (ast.Break, ast.Continue, ast.Return, ast.Raise)) for y in arm[:-1] for n in ast.walk(y)):
+                    return None
+                s1, s2 = list(st.body[:i]), list(other) + list(st.body[i + 1:])
+                if _has_continue(s1) or any(isinstance(n, (ast.Break,)) for y in s1 for n in _own_level(y)):
+                    return None
+                cond = x.test if negated else ast.UnaryOp(op=ast.Not(), operand=x.test)       # the condition under which the loop goes on
+                ast.copy_location(cond, x.test)
+                after = list(arm[:-1]) + ([] if isinstance(arm[-1], ast.Break) else [arm[-1]])
+                if not s1 and not s2:
+                    return None
+                if not s1:
+                    return ("top", cond, s2, after)
+                reads = {n.id for n in ast.walk(x.test) if isinstance(n, ast.Name)} | {dotted(n) for n in ast.walk(x.test) if isinstance(n, ast.Attribute)}
+                writes = set()
+                for y in s2:
+                    for n in ast.walk(y):
+                        if isinstance(n, (ast.Name, ast.Attribute)) and isinstance(n.ctx, ast.Store):
+                            writes.add(n.id if isinstance(n, ast.Name) else dotted(n))
+                if self._silent(s2) and not (reads & writes):
+                    return ("dowhile", cond, s1, s2, after)
+                if _has_continue(s2):
+                    return None
+                return ("rotate", cond, s1, s2, after)
+        return None
+
+    def _while_norm(self, st, orig=None):
+        plan = self._plan_while(st)
+        orig = orig or st
+        if plan is None:
+            return self._while(st, orig=orig)
+
+        def loop(test, body):
+            new = ast.While(test=test, body=body or [ast.copy_location(ast.Pass(), st)], orelse=[])
+            ast.copy_location(new, st)
+            return new
+        if plan[0] == "top":
+            _k, cond, s2, after = plan
+            self._while(loop(cond, s2), orig=orig)
+        elif plan[0] == "dowhile":
+            _k, cond, s1, s2, after = plan
+            self._while(loop(cond, s1 + s2), orig=orig, forced=True, split=len(s1))
+        else:
+            _k, cond, s1, s2, after = plan
+            r = self.run(s1)
+            if r is not None:
+                return r
+            self._while(loop(cond, s2 + s1), orig=orig)
+        return self.run(after)
+
+    def _for_as_while(self, st):
+        """`for v in itertools.count(a, b)` and `for v in iter(f, sentinel)` as the `while True` loops they abbreviate: -> (statements before, loop)"""
+        it_ = st.iter
+        if st.orelse or not isinstance(it_, ast.Call) or it_.keywords:
+            return None
+        d = dotted(it_.func) or ""
+
+        def at(n):
+            for x in ast.walk(n):
+                if not hasattr(x, "lineno"):
+                    ast.copy_location(x, st)
+            ast.copy_location(n, st)
+            return ast.fix_missing_locations(n)
+        true = ast.Constant(value=True)
+        if d.split(".")[-1] == "count" and d.split(".")[0] in ("it", "itertools", "count") and len(it_.args) <= 2 and isinstance(st.target, ast.Name) \
+                and not _has_continue(st.body) and not any(isinstance(a, ast.Starred) for a in it_.args):
+            start = it_.args[0] if it_.args else ast.Constant(value=0)
+            step = it_.args[1] if len(it_.args) > 1 else ast.Constant(value=1)
+            init = at(ast.Assign(targets=[ast.Name(id=st.target.id, ctx=ast.Store())], value=start))
+            inc = at(ast.AugAssign(target=ast.Name(id=st.target.id, ctx=ast.Store()), op=ast.Add(), value=step))
+            return [init], at(ast.While(test=true, body=list(st.body) + [inc], orelse=[]))
+        if d == "iter" and len(it_.args) == 2 and not any(isinstance(a, ast.Starred) for a in it_.args):
+            tmp = "<next>"
+            get = at(ast.Assign(targets=[ast.Name(id=tmp, ctx=ast.Store())], value=ast.Call(func=it_.args[0], args=[], keywords=[])))
+            stop = at(ast.If(test=ast.Compare(left=ast.Name(id=tmp, ctx=ast.Load()), ops=[ast.Eq()], comparators=[it_.args[1]]),
+                             body=[ast.Break()], orelse=[]))
+            bind = at(ast.Assign(targets=[st.target], value=ast.Name(id=tmp, ctx=ast.Load())))
+            return [], at(ast.While(test=true, body=[get, stop, bind] + list(st.body), orelse=[]))
+        return None
+
+    def _while(self, st, orig=None, forced=False, split=None):
         ev = self.ev
         parent = self.frame
+        if self.force is not None and not forced and not (isinstance(st.test, ast.Constant) and bool(st.test.value) is True) \
+                and not any(isinstance(n, (ast.Call, ast.NamedExpr)) for n in ast.walk(st.test)):
+            # a case in which the loop is never entered
+            if self.decide_value(ev.ev(st.test)) is False:
+                return self.run(st.orelse) if st.orelse else None
         parent.nloops += 1
         fid = F.fn("frame", parent.id, F.const(parent.nloops))
         ph = self._placeholders(st, fid)
+        if forced:
+            # names first bound inside the loop: the loop's test, written at its top, reads the value the previous iteration left
+            for nm, p in list(ph.items()):
+                if is_unknown(p) and ev.env.get(nm) is None:
+                    ph[nm] = F.fn("lv", fid, F.sym("unbound:" + nm))
         entry = {nm: ev.env.get(nm) for nm in ph}
         for nm, p in ph.items():
             ev.env[nm] = p
@@ -1190,20 +1607,32 @@ class Walker:
         g0 = self.guard
         self.guard = g0 + ((test, True),) if not always else g0
         self._breaks.append([])
+        snap = None
         try:
-            status = self.run(st.body)
+            if split is None:
+                status = self.run(st.body)
+            else:
+                status = self.run(st.body[:split])
+                snap = dict(self.ev.env)
+                if status is None:
+                    status = self.run(st.body[split:])
         finally:
             self.frames.pop()
             self.guard = g0
             breaks = self._breaks.pop()
         carry = [(p, ev.env.get(nm)) for nm, p in ph.items() if not is_unknown(p)]
-        lp = Loop("while", test, fr.items, carry, fid, st, entry, g0, ph)
+        lp = Loop("while", test, fr.items, carry, fid, orig if orig is not None else st, entry, g0, ph, forced, fr)
         lp.exits = status
         if is_unknown(test):
             raise Stuck(f"loop condition at line {st.lineno} cannot be lowered ({test.why})")
         parent.items.append(("loop", lp))
         parent.opaque()
-        if always and len(breaks) == 1:
+        if snap is not None:
+            # a loop tested at its end is left right after the test, with the values the locals have there
+            for nm in ph:
+                v = snap.get(nm)
+                ev.env[nm] = v if v is not None else Unknown(f"`{nm}` is not bound where the loop at line {st.lineno} is left")
+        elif always and len(breaks) == 1:
             # `while 1: ... break`: the loop is left at its only break, with the values the locals have there
             for nm in ph:
                 v = breaks[0].get(nm)
@@ -1244,6 +1673,8 @@ class Walker:
         for nm, p in ph.items():
             ev.env[nm] = p
         tnames = [x.id for x in ast.walk(st.target) if isinstance(x, ast.Name)]
+        if n is not None and not is_unknown(n) and not isinstance(n, tuple):
+            self.for_trips.append((fid, n))
         for i, nm in enumerate(tnames):
             ev.env[nm] = F.fn("item", fid, F.const(i)) if (n is not None or not is_unknown(itv)) else itv
         fr = _Frame(fid)
@@ -1267,7 +1698,7 @@ class Walker:
             test = F.fn("count", need(n)) if n is not None and not is_unknown(n) else itv
             if test is None or is_unknown(test):
                 raise Stuck(f"`for` at line {st.lineno} consumes from the file over an iterable that cannot be lowered")
-            lp = Loop("for", test, fr.items, carry, fid, st, entry, self.guard, ph)
+            lp = Loop("for", test, fr.items, carry, fid, st, entry, self.guard, ph, False, fr)
             lp.exits = status
             parent.items.append(("loop", lp))
             parent.opaque()
@@ -1291,16 +1722,71 @@ class Walker:
                 kws[k.arg] = ev.ev(k.value)
         return pos, kws
 
+    def _bound_method(self, v):
+        """a value that is a bound method -> (receiver value, method name): `rl = self._fileh.readline`, `s4 = self._Str_i4.unpack`"""
+        if v is None or is_unknown(v) or isinstance(v, tuple):
+            return None
+        n = sym_name(v)
+        if n is not None and "." in n and n[:1] not in "'\"" and not n.startswith(("fstr:", "lambda:", "dict:")):
+            return F.sym(n.rsplit(".", 1)[0]), n.rsplit(".", 1)[1]
+        p = fn_parts(v)
+        if p is not None and p[0].startswith("attr:") and len(p[1]) == 1 and not isinstance(p[1][0], str):
+            return p[1][0], p[0][5:]
+        return None
+
+    def followable(self, name, f2):
+        if name in self.no_inline:
+            return False
+        if callable(self.follow):
+            return bool(self.follow(name, f2))
+        if not self.follow:
+            return False
+        return name in self.extra_inline or f2 in self.effects or _is_getter(f2) or _is_simple(f2)
+
+    def _function_leaves(self, v, depth=0):
+        """the functions of the walked class a callee value selects between: value -> [FunctionDef or None per leaf]"""
+        p = fn_parts(v) if v is not None and not is_unknown(v) and not isinstance(v, tuple) else None
+        if p is not None and p[0] == "phi" and depth < 8:
+            return self._function_leaves(p[1][1], depth + 1) + self._function_leaves(p[1][2], depth + 1)
+        n = sym_name(v) if v is not None and not is_unknown(v) and not isinstance(v, tuple) else None
+        f2 = self.table.get(n) if n is not None else None
+        # (only functions that touch the file are entered this way: what a reader is *handed* to allocate / store / finish stays a call)
+        return [f2 if f2 is not None and self.followable(n, f2) and (f2 in self.effects or n in self.extra_inline) else None]
+
+    def _call_selected(self, fv, node, ev):
+        """a call through a value that selects between functions of the class: the call of the selected function, selection by selection"""
+        p = fn_parts(fv)
+        if p is not None and p[0] == "phi":
+            c, a, b = p[1]
+            _st, val = self._branch(c, lambda: (None, self._call_selected(a, node, ev)), lambda: (None, self._call_selected(b, node, ev)), node)
+            return val
+        n = sym_name(fv)
+        return self.inline(self.table[n], node, self.ev, n)
+
     def call(self, node, ev):
         func = node.func
         name = dotted(func)
         recv = None
+        meth = None
         if isinstance(func, ast.Attribute):
             # the receiver is evaluated once (it may itself be a call that reads)
             recv = ev.ev(func.value)
+            meth = func.attr
+        elif isinstance(func, ast.Name) and func.id in ev.env and func.id not in ev.buffers:
+            # a local that holds a bound method or a function
+            fv = ev.env[func.id]
+            bm = self._bound_method(fv)
+            if bm is not None and (self.is_file(bm[0]) or bm[1] in ("unpack", "unpack_from")):
+                recv, meth = bm
+                name = None
+            elif id(node) not in self.indirect and func.id not in self.indirect:
+                lv = self._function_leaves(fv)
+                if lv and all(f is not None for f in lv):
+                    self.events.append(("dispatch", fv, node))
+                    return self._call_selected(fv, node, ev)
         # ---- file methods
         if recv is not None and self.is_file(recv):
-            m = func.attr
+            m = meth
             pos, kws = self._args(node, ev)
             if m == "read":
                 if len(pos) != 1:
@@ -1360,20 +1846,9 @@ class Walker:
         # ---- struct decoding
         is_unpack = False
         structobj = None
-        if isinstance(func, ast.Attribute) and func.attr in ("unpack", "unpack_from"):
+        if meth in ("unpack", "unpack_from"):
             is_unpack = True
             structobj = recv
-        elif isinstance(func, ast.Name):
-            v = ev.env.get(func.id)
-            sn = sym_name(v) if v is not None else None
-            if sn is not None and sn.endswith(".unpack"):
-                is_unpack = True
-                structobj = F.sym(sn[: -len(".unpack")])
-            elif v is not None and not is_unknown(v) and not isinstance(v, tuple):
-                p = fn_parts(v)
-                if p is not None and p[0] == "attr:unpack":
-                    is_unpack = True
-                    structobj = p[1][0]
         if is_unpack:
             pos, kws = self._args(node, ev)
             if name in ("struct.unpack", "struct.unpack_from"):
@@ -1394,10 +1869,8 @@ class Walker:
             target = self.indirect[id(node)]
         elif isinstance(func, ast.Name) and func.id in self.indirect:
             target = self.indirect[func.id]
-        elif self.follow and name in self.table and name not in self.no_inline:
-            f2 = self.table[name]
-            if name in self.extra_inline or f2 in self.effects or _is_getter(f2):
-                target = f2
+        elif name in self.table and self.followable(name, self.table[name]):
+            target = self.table[name]
         if target is not None:
             if id(node) in self.indirect and isinstance(func, ast.Name):
                 self.events.append(("dispatch", ev.env.get(func.id), node))
@@ -1411,6 +1884,21 @@ class Walker:
 
     def _opaque(self, name, recv, pos, kws, node):
         func = node.func
+        plain = lambda v: v is not None and not is_unknown(v) and not isinstance(v, tuple)   # noqa
+        if name == "slice" and 1 <= len(pos) <= 3 and not kws and all(plain(v) for v in pos):
+            a = [None if v.equals(NONE) else v for v in pos]
+            return make_slice(*((None, a[0]) if len(a) == 1 else a))
+        if name == "divmod" and len(pos) == 2 and not kws and all(plain(v) for v in pos):
+            fake = lambda op: ast.BinOp(left=node.args[0], op=op, right=node.args[1])   # noqa
+            return (self._binop(fake(ast.FloorDiv()), pos[0], pos[1], self.ev), self._binop(fake(ast.Mod()), pos[0], pos[1], self.ev))
+        if name == "zip" and pos and not kws and all(isinstance(v, tuple) for v in pos):
+            return tuple(tuple(x) for x in zip(*pos))
+        if name in ("list", "tuple") and len(pos) == 1 and not kws and isinstance(pos[0], tuple):
+            return pos[0]
+        if name == "len" and len(pos) == 1 and isinstance(pos[0], tuple):
+            return F.const(len(pos[0]))
+        if name == "bool" and len(pos) == 1 and plain(pos[0]):
+            return pos[0]
         if name in ("abs", "np.abs", "np.absolute") and len(pos) == 1 and not is_unknown(pos[0]) and not isinstance(pos[0], tuple):
             return F.fn("abs", pos[0])
         if name == "int" and len(pos) == 1 and not kws and not is_unknown(pos[0]) and not isinstance(pos[0], tuple):
@@ -1502,16 +1990,27 @@ class Walker:
         if not rets:
             return F.sym("None")
         # several returns: the value is selected by the guards under which they are reached
-        val = rets[-1][0]
-        for v, g, _st in reversed(rets[:-1]):
-            extra = g[len(g0):]
-            if len(extra) != 1:
-                if same(v, val):
-                    continue
-                return Unknown(f"returns of {name} under nested conditions")
-            c, pol = extra[0]
-            val = phi(c, v, val) if pol else phi(c, val, v)
-        return val
+        return _return_value([(list(g[len(g0):]), v) for v, g, _st in rets], name)
+
+
+def _return_value(lst, name, depth=0):
+    """value of a function from its returns [(guard relative to the call, value)] in source order: a tree of selections on the tests"""
+    if not lst:
+        return F.sym("None")
+    g, v = lst[0]
+    if not g:
+        return v
+    c = g[0][0]
+    if is_unknown(c) or depth > 24:
+        return Unknown(f"returns of {name} under a test that cannot be lowered")
+    yes, no = [], []
+    for gg, vv in lst:
+        if gg and gg[0][0] is c:
+            (yes if gg[0][1] else no).append((gg[1:], vv))
+        else:
+            yes.append((gg, vv))
+            no.append((gg, vv))
+    return phi(c, _return_value(yes, name, depth + 1), _return_value(no, name, depth + 1))
 
 
 def _method_table(ctx, rel, cls):
@@ -1558,6 +2057,37 @@ def _file_effects(table):
     return eff
 
 
+def _own_level(st):
+    """nodes of a statement that belong to the enclosing loop: nested loops and function definitions are not entered"""
+    stack = [st]
+    while stack:
+        n = stack.pop()
+        yield n
+        for ch in ast.iter_child_nodes(n):
+            if isinstance(ch, (ast.While, ast.For, ast.AsyncFor, ast.FunctionDef, ast.AsyncFunctionDef, ast.Lambda, ast.ClassDef)):
+                if isinstance(ch, (ast.While, ast.For, ast.AsyncFor)):
+                    # a `return` / `raise` inside a nested loop still leaves this one
+                    for x in ast.walk(ch):
+                        if isinstance(x, (ast.Return, ast.Raise)):
+                            yield x
+                continue
+            stack.append(ch)
+
+
+def _loop_exits(body):
+    """the statements that leave a loop: its own `break`s, and every `return` / `raise` inside it"""
+    out = []
+    for st in body:
+        for n in _own_level(st):
+            if isinstance(n, (ast.Break, ast.Return, ast.Raise)) and not any(n is x for x in out):
+                out.append(n)
+    return out
+
+
+def _has_continue(stmts):
+    return any(isinstance(n, ast.Continue) for st in stmts for n in _own_level(st))
+
+
 def _always_exits(stmts):
     if not stmts:
         return False
@@ -1567,6 +2097,39 @@ def _always_exits(stmts):
     if isinstance(last, ast.If):
         return bool(last.orelse) and _always_exits(last.body) and _always_exits(last.orelse)
     return False
+
+
+def _is_simple(f):
+    """a helper that only computes values from its arguments: assignments to its own locals, tests, returns - no loops, no stores into
+    objects, no statements evaluated for their effect"""
+    def ok_target(t):
+        if isinstance(t, ast.Name):
+            return True
+        if isinstance(t, (ast.Tuple, ast.List)):
+            return all(ok_target(e) for e in t.elts)
+        return False
+
+    def ok(stmts):
+        for st in stmts:
+            if isinstance(st, ast.Expr) and isinstance(st.value, ast.Constant):
+                continue
+            if isinstance(st, ast.Assign):
+                if not all(ok_target(t) for t in st.targets):
+                    return False
+            elif isinstance(st, (ast.AnnAssign, ast.AugAssign)):
+                if not ok_target(st.target):
+                    return False
+            elif isinstance(st, ast.If):
+                if not ok(st.body) or not ok(st.orelse):
+                    return False
+            elif isinstance(st, (ast.Return, ast.Pass)):
+                continue
+            else:
+                return False
+        return True
+    if any(isinstance(n, (ast.Yield, ast.YieldFrom, ast.Await, ast.Lambda)) for n in ast.walk(f)):
+        return False
+    return ok(f.body) and any(isinstance(n, ast.Return) and n.value is not None for n in ast.walk(f))
 
 
 def _is_getter(f):
@@ -1603,6 +2166,10 @@ def _bool(v):
             return ("or", [("and", [_bool(c), _bool(a)]), ("and", [("not", _bool(c)), _bool(b)])])
         if nm == "call:bool" and len(args) == 1 and not isinstance(args[0], str):
             return _bool(args[0])
+        if nm == "ge0" and len(args) == 1 and not isinstance(args[0], str) and not args[0].is_const() and F._leading_negative(args[0].n):
+            # x < 0 is the negation of x >= 0: one atom for both
+            pos = F.fn("ge0", -args[0] - 1)
+            return ("not", ("atom", repr(pos), pos))
     if sym_name(v) in ("True", "False"):
         return ("const", sym_name(v) == "True")
     return ("atom", repr(v), v)
